@@ -325,7 +325,8 @@ def reuse_case(ctx, E, name, classes, hist, kind):
             net = impl_net(keys_, trip_)
             starkeys = [tuple(sorted(keys_[x] for x in st)) for st in S_.stars]
             return sorted(((c['jt'], tuple(sorted(((a, b) for a, b, _ in c['entries']), key=_key_none)),
-                            (starkeys[c['sp'][0]], starkeys[c['sp'][1]])) for c in net), key=repr)
+                            tuple(sorted((starkeys[c['sp'][0]], starkeys[c['sp'][1]])))) for c in net), key=repr)
+            # (the star pair is that of the class's first jump; its orientation depends on the state order: unordered)
         v, fv, av = view(S, keys, trip), view(fresh, fkeys, ftrip), view(S, keys, ag)
         if not same_states:
             continue
